@@ -161,6 +161,10 @@ def eval_pred(expr, var, env=None):
         return " (b in %r) " % (sorted(pattern_set(m.group(1))),)
     e = re.sub(r"matches!\(\s*%s\s*,((?:b'(?:\\.|[^\\'])'|[^()'])*)\)" % v, rep_matches, e)
     e = re.sub(r'b"((?:[^"\\]|\\.)*)"\s*\.contains\(\s*&?%s\s*\)' % v, lambda m: " (b in %r) " % (sorted(set(unescape(m.group(1)))),), e)
+    def rep_range(m):
+        lo, hi = _num(m.group(1)), _num(m.group(3))
+        return " (b in %r) " % (list(range(lo, hi + (1 if m.group(2) else 0))),)
+    e = re.sub(r"\(\s*(%s)\s*\.\.(=?)\s*(%s)\s*\)\s*\.contains\(\s*&?%s\s*\)" % (_LIT, _LIT, v), rep_range, e)
     for meth, st in (("is_ascii_uppercase", range(65, 91)), ("is_ascii_lowercase", range(97, 123)), ("is_ascii_digit", range(48, 58)),
                      ("is_ascii_alphanumeric", list(range(48, 58)) + list(range(65, 91)) + list(range(97, 123))),
                      ("is_ascii_alphabetic", list(range(65, 91)) + list(range(97, 123))),
